@@ -23,6 +23,19 @@ from statham.schema.validation import (
 RESERVED_PROPERTIES = dir(object) + list(keyword.kwlist) + ["_dict"]
 
 
+def _docstring(text: str) -> str:
+    """Render text as a docstring literal which evaluates back to it."""
+    escaped = "".join(
+        char
+        if char == "\n" or (char.isprintable() and char != "\\")
+        else char.encode("unicode_escape").decode("ascii")
+        for char in text
+    ).replace('"""', '\\"\\"\\"')
+    if escaped.endswith('"'):
+        escaped = escaped[:-1] + '\\"'
+    return f'"""{escaped}"""'
+
+
 class ObjectClassDict(dict):
     """Overriden class dictionary for the metaclass of Object.
 
@@ -179,7 +192,7 @@ class ObjectMeta(type, Element):
         if not cls.description is None and not isinstance(
             cls.description, NotPassed
         ):
-            class_def += f'    """{cls.description}"""\n'
+            class_def += f"    {_docstring(cls.description)}\n"
         if not cls.properties:
             class_def = (
                 class_def
